@@ -19,6 +19,18 @@ CHECKS = {
              "Known findings D13, D15 are excused only on the exact trigger/clause recorded in known_findings.json.",
         technique="TLA+ model checking (TLC) of Wrap.tla + spec->code replay + batch trace validation (WrapTrace.tla)",
         design="§6 C05"),
+    "C11": dict(
+        level="model_checking",
+        text="TLC explores every behaviour of spec/SentenceWrap.tla (one action per sentence of line_wrap_by_sentence, inner greedy "
+             "fill as operator) and checks P1 (breaks only after sentence ends or width-forced), P2 (sentence end => break unless "
+             "the line so far is shorter than min_line_len) and DiffLocal (self-composition over every single-sentence edit). Every "
+             "behaviour and every edit pair is replayed into the real line_wrap_by_sentence(width, min_line_len) -- also after each "
+             "sentence, so the machine's state is compared after every action -- plus an end-to-end reformat_text(semantic=True) "
+             "family in containers; spec/SentenceTrace.tla validates each observation (drift) and evaluates P1/P2/Local (verdict).",
+        note="Trusted: harness/vocab.py projection, TLC. Sentence ends are generated words matching SENTENCE_END_RE; the regex "
+             "engine itself is not modelled. Known findings D14/D13 excused only on triggered lines of as-is behaviour.",
+        technique="TLA+ model checking (TLC) with self-composition for diff locality + stepwise spec->code replay + batch trace validation",
+        design="§6 C11"),
 }
 
 NOT_YET = "check not built yet in this phase (planned, see DESIGN.md §6)"
